@@ -41,7 +41,7 @@ var c17Users = []seedUser{
 }
 
 func genPolicyPW(t *rapid.T, user string) (string, string) {
-	cls := rapid.SampledFrom([]string{"dictionary", "walk", "date", "username", "l33t", "repeat", "random", "random-long", "unicode", "phrase", "current", "weak-prefix-strong-tail", "very-long"}).Draw(t, "pwcls")
+	cls := rapid.SampledFrom([]string{"dictionary", "walk", "date", "username", "l33t", "repeat", "random", "random-long", "unicode", "phrase", "current", "weak-prefix-strong-tail", "very-long", "weak-separator-strong"}).Draw(t, "pwcls")
 	switch cls {
 	case "dictionary":
 		return rapid.SampledFrom([]string{"password", "letmein", "dragon", "monkey", "sunshine", "princess", "football", "trustno1", "correct", "horse"}).Draw(t, "w"), cls
@@ -65,6 +65,10 @@ func genPolicyPW(t *rapid.T, user string) (string, string) {
 		// the strength lies beyond the first 32 / 64 / 72 / 128 bytes
 		n := rapid.SampledFrom([]int{32, 64, 65, 72}).Draw(t, "prefixlen")
 		return strings.Repeat(rapid.SampledFrom([]string{"a", "ab", "1"}).Draw(t, "unit"), n)[:n] + rapid.StringMatching(`[a-zA-Z0-9!#$%&*+,./:;=?@^_~-]{14,24}`).Draw(t, "tail"), cls
+	case "weak-separator-strong":
+		// a weak (or empty) part, a byte that ends a string for some other program (NUL, line end, tab, colon), then the strength
+		return rapid.SampledFrom([]string{"a", "", "password", "bob"}).Draw(t, "head") + rapid.SampledFrom([]string{"\x00", "\n", "\r\n", "\t", ":", " "}).Draw(t, "sep") +
+			rapid.StringMatching(`[a-zA-Z0-9!#$%&*+,./;=?@^_~-]{14,22}`).Draw(t, "tail"), cls
 	case "very-long":
 		return rapid.StringMatching(`[a-zA-Z0-9 !#$%&*+,./:;=?@^_~-]{65,90}`).Draw(t, "w"), cls
 	case "unicode":
@@ -264,6 +268,15 @@ func runC17(c c17Case) string {
 				}
 				if ok2, _, _, _, _ := e.s.dir.Authenticate(s.Target, pw); !ok2 {
 					return fmt.Sprintf("VIOLATION C17: accepted password does not authenticate; %s", ctx)
+				}
+				// what was stored is the password that was rated: no part of it alone opens the account
+				if i := strings.IndexAny(pw, "\x00\n\r\t: "); i >= 0 && i < len(pw)-1 {
+					for _, part := range []string{pw[:i], pw[:i+1], pw[i+1:]} {
+						if ok3, _, _, _, _ := e.s.dir.Authenticate(s.Target, part); ok3 && part != pw {
+							return fmt.Sprintf("VIOLATION C17: the policy rated %s but what was stored for %q is a password that %s opens (never rated, and failing the policy on its own or not - it is not what the policy accepted); %s", vlib.Q(pw), s.Target, vlib.Q(part), ctx)
+						}
+					}
+					vlib.Class("accepted-password-with-separator-byte:parts-probed")
 				}
 			}
 			vlib.Class("write:policy-satisfying-password")
